@@ -296,7 +296,7 @@ def check(fx, rep, tier):
     # waits for readiness first or post-processes the count breaks those arguments from below (lost read-ahead bytes after a cancelled receive,
     # frames overtaken by newer socket data, an unbounded private buffer, a lost turn in the fair select)
     READ_OK = {'read', 'into_future', 'new_unchecked', 'new', 'get_context', 'poll', 'map_err', 'deref', 'deref_mut', 'as_mut', 'as_ref', 'get_mut', 'get_ref',
-               'branch', 'from_residual', 'from', 'into', 'borrow', 'borrow_mut'}
+               'branch', 'from_residual', 'from', 'into', 'borrow', 'borrow_mut', 'len', 'is_empty'}
     n_rd = 0
     for cn in ('zlink_tokio', 'zlink_smol'):
         crate = fx.crate(cn, 'full')
